@@ -104,6 +104,11 @@ func runC16(ctx *core.Ctx) {
 		}
 		return sqrtCase{U: a, V: b}
 	})
+	// targeted inputs: the internal check value differs from its comparison
+	// partner by a single bit / limb-corner pattern
+	tg := sqrtRatioTargets()
+	one := elemIn{alpha.CanonLimbs(big.NewInt(1))}
+	subC16.Run(ctx, len(tg), func(i int) sqrtCase { return sqrtCase{U: elemIn{alpha.CanonLimbs(tg[i])}, V: one, Alias: i % 3} })
 	if ctx.DistinctCount("case-class") != 4 {
 		ctx.Vacuous("C16: not all four contract classes were exercised")
 	}
